@@ -82,6 +82,12 @@ func main() {
 	if ps == nil {
 		res.Finish()
 	}
+	if report.FreeRun > 0 {
+		gate.FreeRuns = report.FreeRun
+		e2(ps, owner)
+		res.Add("free_runs", int64(gate.FreeRunsDone))
+		res.Finish()
+	}
 	var types []string
 	for _, p := range ps {
 		types = append(types, p.name)
